@@ -17,6 +17,10 @@ sdriver.CHECKS["c01"] = check
 
 def run(ctx: Ctx) -> int:
     outcome = Outcome()
+    from props import selftest
+
+    st_progs, st_paths, st_errors = selftest.run()
+    outcome.harness_errors += ["encoder self-test: " + e for e in st_errors]
     cov = sdriver.run_family(ctx, "c01", detfam.family(ctx), outcome)
     from tealer.detectors import utils as du
     from tealer.detectors.groupsize import MissingGroupSize
@@ -34,6 +38,7 @@ def run(ctx: Ctx) -> int:
          "programs comparing a governed address/fee field with a run-time value are skipped for the address/fee detectors (documented heuristic, outside the claim)",
          "the universal part over constants rests on the K lemmas of C06-C09"],
     )
+    ev["coverage"]["encoder_selftest"] = {"programs": st_progs, "paths_replayed": st_paths, "mismatches": len(st_errors)}
     return common.finish(ctx, outcome, ev)
 
 
